@@ -794,6 +794,19 @@ func runC07(c *hc.Ctx) error {
 			if rep == 1 {
 				ids2 = append(ids2, ids2[0])
 			}
+			// what was snapped before must not matter: in between, another polygon is snapped with the same tile matrix
+			// set and ids — one that shares vertices with this one but reaches outside the grid and is skipped
+			// (ignore-outside-grid), or an ordinary one
+			if other := clonePoly(poly); len(other) > 0 && len(other[0]) > 0 {
+				cfgI := cfg
+				if rep == 0 {
+					other[0][len(other[0])-1] = Pt{g.Ext[0] - g.Res, other[0][len(other[0])-1][1]}
+					cfgI.IgnoreOutsideGrid = true
+				} else {
+					other[0][0] = Pt{other[0][0][0] + g.Res, other[0][0][1]}
+				}
+				_ = runSnap(g, other, ids2, cfgI, watchdog)
+			}
 			r2 := runSnap(g, poly, ids2, cfg, watchdog)
 			c.Sum.Evaluations++
 			if r2.Panic != "" || !reflect.DeepEqual(r.Raw, r2.Raw) {
